@@ -195,6 +195,8 @@ func genBlocks(r *rand.Rand, nStores, nBlocks int, transient bool) ([]msBlock, *
 			o := msOp{S: r.Intn(nStores), K: kg.Key(r)}
 			if r.Intn(4) == 0 {
 				o.Del = true
+			} else if r.Intn(8) == 0 {
+				o.V = []byte{} // a present key with an empty value (index-style entries; only nil is refused by the stores)
 			} else {
 				o.V = []byte(fmt.Sprintf("b%d.%d", b+1, vn))
 			}
